@@ -330,4 +330,46 @@ theorem wireBody_frame (w : Writer) (body : Msg) (info : WireInfo) :
     (wireBody w body info).ns = body.ns ∧ (wireBody w body info).extra = body.extra := by
   unfold wireBody; split <;> simp
 
+/-! ### what a cache entry keeps -/
+
+theorem firstEDE_code (os : List EOpt) (x : EOpt) (h : firstEDE os = some x) : x.code = codeEDE := by
+  unfold firstEDE at h
+  have := List.find?_some h
+  simpa using this
+
+theorem extractEDE_code (l : List RR) : ∀ (acc : Option EOpt), (∀ a, acc = some a → a.code = codeEDE) →
+    ∀ x, extractEDE l acc = some x → x.code = codeEDE := by
+  induction l with
+  | nil => intro acc hacc x h; exact hacc x (by simpa [extractEDE] using h)
+  | cons r t ih =>
+    intro acc hacc x h
+    cases r with
+    | data k i c u => exact ih acc hacc x (by simpa [extractEDE] using h)
+    | opt o own =>
+      simp only [extractEDE] at h
+      refine ih _ ?_ x h
+      intro a ha
+      cases hf : firstEDE o.options with
+      | none => rw [hf] at ha; exact hacc a ha
+      | some e =>
+        rw [hf] at ha
+        simp only [Option.some.injEq] at ha
+        subst ha
+        exact firstEDE_code _ _ hf
+
+theorem newCacheEntry_facts (m : Msg) (e : Entry) (h : newCacheEntry m = some e) :
+    (∀ rr ∈ e.msg.extra, rr.isOpt = false) ∧ (∀ x, e.ede = some x → x.code = codeEDE) ∧
+    e.msg.question = m.question := by
+  unfold newCacheEntry at h
+  split at h
+  · cases h
+  · simp only [Option.some.injEq] at h
+    subst h
+    refine ⟨?_, ?_, rfl⟩
+    · intro rr hrr
+      simp only [List.mem_filter, Bool.not_eq_eq_eq_not, Bool.not_true] at hrr
+      exact hrr.2
+    · intro x hx
+      exact extractEDE_code m.extra none (by intro a ha; cases ha) x hx
+
 end SdnsVerif.Lemmas.Edns
